@@ -547,12 +547,28 @@ def _parse_label(lab: str) -> Tuple[str, Any]:
 # ----------------------------------------------------------------------------------------------
 # covering walk over a dumped graph: every (applicable) edge is executed at least once
 # ----------------------------------------------------------------------------------------------
-def cover(nodes, edges, init, applicable, seg_len: int, rng: random.Random):
-    """Return segments [(init_node, [edge index, ...])] whose union contains every applicable edge."""
+def cover(nodes, edges, init, applicable, seg_len: int, rng: random.Random, stats: Optional[Dict[str, int]] = None):
+    """Return segments [(init_node, [edge index, ...])] whose union contains every applicable edge of the subgraph
+    that the applicable edges span from the initial states (= the whole graph when every action is applicable)."""
+    reach = set(init)
+    dq0 = deque(init)
+    adj: Dict[str, List[str]] = {u: [] for u in nodes}
+    for u, v, lab in edges:
+        if applicable(lab):
+            adj[u].append(v)
+    while dq0:
+        u = dq0.popleft()
+        for v in adj[u]:
+            if v not in reach:
+                reach.add(v)
+                dq0.append(v)
     out: Dict[str, List[int]] = {u: [] for u in nodes}
     for i, (u, v, lab) in enumerate(edges):
-        if applicable(lab):
+        if applicable(lab) and u in reach:
             out[u].append(i)
+    if stats is not None:
+        stats.update({"states_in_graph": len(nodes), "edges_in_graph": len(edges), "states_walked": len(reach),
+                      "edges_to_cover": sum(len(x) for x in out.values())})
     for u in out:
         rng.shuffle(out[u])
     succ: Dict[str, Dict[str, int]] = {u: {} for u in nodes}
@@ -637,12 +653,19 @@ def cover(nodes, edges, init, applicable, seg_len: int, rng: random.Random):
     return segments
 
 
+JOBS: List[Dict[str, Any]] = []      # per covering walk: what was walked (goes into the evidence file)
+
+
 def scenarios_from_graph(nodes, edges, init, driver: str, cfg_of, applicable, seg_len: int, rng: random.Random,
-                         init_alpha_any: bool = False) -> List[Dict[str, Any]]:
+                         init_alpha_any: bool = False, what: str = "") -> List[Dict[str, Any]]:
     """Concretise the covering walk into executable scenarios (one per segment)."""
     _setup()
     out = []
-    segs = cover(nodes, edges, init, applicable, seg_len, rng)
+    stats: Dict[str, Any] = {"walk": what, "driver": driver}
+    segs = cover(nodes, edges, init, applicable, seg_len, rng, stats)
+    stats["edge_executions"] = sum(len(seg) for _, seg in segs)
+    stats["scenarios"] = len(segs)
+    JOBS.append(stats)
     for start, seg in segs:
         st = nodes[start]["st"]
         cfg = cfg_of(st)
@@ -859,51 +882,58 @@ def run(tier: str, seed: int, replay: Optional[str] = None) -> int:
         r0 = st["rank"][0]
         return [base[r0[i] - 1] for i in range(n)]
 
-    def bare_layer(g):
+    def bare_layer(g, what):
         n = n_of(g)
         return scenarios_from_graph(*g, "bare_mps",
                                     lambda st: {"form": "layer", "prec": prec_for(st, n), "C": 3,
                                                 "qtz": "pact" if st["hard"] else "minmax", "_shape": [(n, 1)]},
-                                    not_bare, seg_len, rng)
+                                    not_bare, seg_len, rng, what=what)
 
-    def bare_channel(g, c=4):
+    def bare_channel(g, what, c=4):
         n = n_of(g)
         return scenarios_from_graph(*g, "bare_mps",
                                     lambda st: {"form": "channel", "prec": prec_for(st, n), "C": c, "qtz": "minmax",
                                                 "_shape": [(n, c)]},
-                                    not_bare, seg_len, rng)
+                                    not_bare, seg_len, rng, what=what)
 
-    def bare_sn(g):
+    def bare_sn(g, what):
         n = n_of(g)
-        return scenarios_from_graph(*g, "bare_sn", lambda st: {"N": n, "_shape": [(n, 1)]}, every, seg_len, rng)
+        return scenarios_from_graph(*g, "bare_sn", lambda st: {"N": n, "_shape": [(n, 1)]}, every, seg_len, rng, what=what)
 
-    scen += bare_layer(G["mps"])
-    scen += bare_channel(G["mps3"] if thorough else G["mps"])
-    if thorough:
-        scen += bare_layer(G["mps3"])
+    del JOBS[:]
+    scen += bare_layer(G["mps"], f"MPSPerLayerQtz / mps_{optimpl}_{sfx}: every edge")
     pc_ch = len(next(iter(G["pc"][0].values()))["st"]["rank"])
     scen += scenarios_from_graph(*G["pc"], "bare_mps",
                                  lambda st: {"form": "channel", "prec": [2, 4, 8], "C": pc_ch, "qtz": "minmax",
                                              "_shape": [(3, pc_ch)]},
-                                 not_bare, seg_len, rng, init_alpha_any=True)
-    scen += bare_sn(G["sn"])
+                                 not_bare, seg_len, rng, init_alpha_any=True,
+                                 what=f"MPSPerChannelQtz / pc_{optimpl}_{sfx}: every edge")
+    if thorough:        # quick: the option interleavings on per-channel objects come from the random driver only
+        scen += bare_channel(G["mps3"], f"MPSPerChannelQtz (4 channels) / mps_{optimpl}_thorough3: every edge")
+        scen += bare_layer(G["mps3"], f"MPSPerLayerQtz / mps_{optimpl}_thorough3: every edge")
+    scen += bare_sn(G["sn"], f"SuperNetCombiner / sn_{sfx}: every edge")
     if thorough:
-        scen += bare_sn(G["sn3"])
+        scen += bare_sn(G["sn3"], "SuperNetCombiner / sn_thorough3: every edge")
     # decision points of the whole MPS model, in layer order: input.out, c1.out, c1.w, c2.out, c2.w, fc.out (dummy), fc.w
     nm = n_of(G["mm"])
     mm_shape_l = [(nm, 1)] * 5 + [(1, 1), (nm, 1)]
     scen += scenarios_from_graph(*G["mm"], "model_mps",
                                  lambda st: {"w": "layer", "a_prec": prec_for(st, nm), "w_prec": prec_for(st, nm),
                                              "_shape": mm_shape_l},
-                                 every, seg_len, rng)
+                                 every, seg_len, rng, what=f"MPS model, per-layer weights / mpsmodel_{optimpl}_{sfx}: every edge")
     mm_shape_c = [(nm, 1), (nm, 1), (nm, 4), (nm, 1), (nm, 3), (1, 1), (nm, 5)]
+    no_opts = lambda lab: not lab.startswith("Upd")
     scen += scenarios_from_graph(*G["mm"], "model_mps",
                                  lambda st: {"w": "channel", "a_prec": prec_for(st, nm), "w_prec": prec_for(st, nm),
                                              "_shape": mm_shape_c},
-                                 every, seg_len, rng)
+                                 every if thorough else no_opts, seg_len, rng,
+                                 what=f"MPS model, per-channel weights / mpsmodel_{optimpl}_{sfx}: " +
+                                      ("every edge" if thorough else "every edge of the subgraph without option updates "
+                                                                     "(all constructor options x mode x forward / coefficients / summary / export)"))
     ns = n_of(G["sm"])
     scen += scenarios_from_graph(*G["sm"], "model_sn", lambda st: {"blocks": [ns, ns], "_shape": [(ns, 1), (ns, 1)]},
-                                 every, seg_len, rng)
+                                 every, seg_len, rng, what=f"SuperNet model, two blocks / snmodel_{sfx}: every edge")
+    R.extra["covering_walks"] = list(JOBS)
     n_graph_scen = len(scen)
     R.extra["graph_edges_executed"] = sum(s["edges"] for s in scen)
 
